@@ -225,13 +225,13 @@ impl Property for C07 {
     fn cases(&self, tier: Tier) -> u64 {
         match tier {
             Tier::Quick => 4_000,
-            Tier::Thorough => 200_000,
+            Tier::Thorough => 10_000_000,
         }
     }
     fn min_nontrivial(&self, tier: Tier) -> u64 {
         match tier {
             Tier::Quick => 2_500,
-            Tier::Thorough => 120_000,
+            Tier::Thorough => 5_000_000,
         }
     }
     fn rule(&self) -> &'static str {
